@@ -424,8 +424,9 @@ class FitBase(FileIOMixin, object):
             self._cost_function = _cost_function_class(**_kwargs)
             self._cost_function_pointwise = self._cost_function.pointwise_version
             self._init_cost_function(existing_behavior="replace")
-            self._fitter.parameter_to_minimize = self._cost_function.name
             self._implicit_no_errors = False
+        # a pointwise cost function selected by an earlier do_fit is only valid for the uncorrelated uncertainties it was selected for
+        self._fitter.parameter_to_minimize = self._cost_function.name
 
     def _set_data_as_model_ref(self):
         for _err in self._param_model.get_matching_errors({"relative": True}).values():
